@@ -643,6 +643,11 @@ class Taint:
                 self.sink(t, st.test, mod, 'private data decides a branch')
             e1, e2 = copy.copy(env), copy.copy(env)
             self.block(st.body, e1, mod)
+            if self.is_bounded_flag(st.test, env):
+                # under bounded adjacency the record count is public
+                for k, v in list(e1.items()):
+                    if v is not None and v.count and v is not env.get(k):
+                        e1[k] = CLEAN()
             self.block(st.orelse, e2, mod)
             env.clear()
             env.update(env_join(e1, e2))
